@@ -78,7 +78,7 @@ def gen_index_batch(rng):
     cut = rng.randrange(1, len(muts)) if k == 2 and len(muts) > 1 else None
     evos = [{'label': 'va_e1', 'mutations': muts}] if cut is None else [
         {'label': 'va_e1', 'mutations': muts[:cut]},
-        {'label': 'va_e1b', 'mutations': muts[cut:]}]
+        {'label': 'va_a2', 'mutations': muts[cut:]}]
     project = {'apps': {'va': {'v0': [model], 'steps': [{'evos': evos}]}},
                'order': ['va'], 'databases': ['default']}
     rows = {'va_item': []}
